@@ -1,10 +1,33 @@
-"""C12 — error pages never reflect unescaped client input (draft)."""
+"""C12 — error pages never reflect unescaped client input.
+
+Statement clauses and where they are discharged:
+ (a) "client- or server-controlled text only in HTML-escaped form": the only controlled text that reaches an error page
+     is the `message` argument of format_error (call-site obligations below).  Contract of format_error: the *markup
+     skeleton* of the page — the subsequence of the characters  < > " '  of the result — does not depend on `message`
+     (it equals the skeleton of the page for the empty message), for every status code and every message.
+ (b) "declares an HTML content type": make_error_response / the HTTP/2 and HTTP/3 error branches.
+ (c) "for HTTP/1 is a complete, correctly framed response": make_error_response's result is
+     status-line CRLF fields CRLF CRLF body  with Content-Length = len(body), no Transfer-Encoding, Connection: close,
+     and Http1Server.send emits exactly that followed by CloseConnection.
+"""
 from pyvc.api import *
 from props.prelude import *
 
-CLAIM = "other"
+CLAIM = "proof"
 F = "mitmproxy.proxy.layers.http._base:format_error"
+M = "mitmproxy.proxy.layers.http._http1:make_error_response"
+H1S = "mitmproxy.proxy.layers.http._http1:Http1Server"
+H2C = "mitmproxy.proxy.layers.http._http2:Http2Connection"
+EV = "mitmproxy.proxy.layers.http._events:"
 MARKUP = b"<>\"'"
+CRLF = b"\r\n"
+
+ASSUMPTIONS = [
+    "html.escape(s) (quote=True) contains none of the characters < > \" ' — trusted library contract, html.escape itself is uninterpreted in T1 and exercised for real in T2",
+    "textwrap.dedent, str.strip(), str.encode('utf8','replace') are uninterpreted functions that leave the subsequence of the characters < > \" ' of their argument unchanged (they delete blanks / map non-ASCII to bytes >= 0x80 or '?')",
+    "hyper-h2 (H2Connection.send_headers/send_data/data_to_send) and aioquic are abstracted to ghost trace items recording their arguments; that they put exactly these headers/bytes on the wire is trusted in T1 and exercised in T2 (HTTP/2 client driven through a real h2 peer)",
+    "the escaped set is < > \" ' ; '&' is not tracked by the skeleton obligation (an unescaped '&' cannot open markup); T2 additionally checks that html.unescape of the <p> text gives back the reflected message",
+]
 
 
 def proj(vc, x):
@@ -14,7 +37,15 @@ def proj(vc, x):
             return "".join(c for c in x if c in MARKUP.decode())
         return bytes(c for c in x if c in MARKUP)
     from pyvc.libx_http1 import mproj
-    return type(x)(mproj(x.t))
+    return type(x)(mproj(x.t, lambda c: vc.assume(SBool(c))))
+
+
+def dec(vc, n):
+    """decimal representation of the int n as bytes"""
+    if vc.mode == "native":
+        return b"%d" % n
+    from pyvc.lib import int_to_str
+    return SBytes(int_to_str(lift(n).t))
 
 
 @scenario("format_error", functions=[F], markup_proj=True)
@@ -33,12 +64,362 @@ def s_format_error(vc):
     vc.ensure("markup.independent_of_message", proj(vc, out.result) == proj(vc, ref.result))
 
 
-M = "mitmproxy.proxy.layers.http._http1:make_error_response"
+@scenario("reason_table", functions=[])
+def s_reason_table(vc):
+    """static table used for <title>/<h1> and the status line: no reason phrase contains a tag/entity opener (< > &) or
+    CR/LF (concrete check of the table of the tree under verification; it is not client-controlled text.  Quotes are
+    harmless in element content: 418 is "I'm a teapot")"""
+    from mitmproxy.net.http import status_codes
+    bad = [k for k, v in status_codes.RESPONSES.items() if any(c in v for c in "<>&\r\n") or not isinstance(k, int) or not v.isascii()]
+    vc.ensure("reasons.no_tag_opener_no_crlf", bad == [])
 
 
-@scenario("make_error_response.probe", functions=[M], markup_proj=True)
-def s_mer(vc):
-    status = vc.sym_int("status", lo=100, hi=999)
+def _body_summary(vc, body, calls):
+    def summ(v, status, message=""):
+        calls.append((status, message))
+        return body
+    vc.summary(F, summ)
+    vc.summary("mitmproxy.proxy.layers.http._http1:format_error", summ)
+    vc.summary("mitmproxy.proxy.layers.http._http2:format_error", summ)
+    vc.summary("mitmproxy.proxy.layers.http._http3:format_error", summ)
+
+
+@scenario("make_error_response", functions=[M, "mitmproxy.http:Response.make", "mitmproxy.net.http.http1.assemble:assemble_response"])
+def s_make_error_response(vc):
+    status = vc.sym_int("status", lo=100, hi=599)
     msg = vc.sym_str("message")
+    body = vc.sym_bytes("body")
+    calls = []
+    _body_summary(vc, body, calls)
     out = vc.call(M, status, msg)
     vc.ensure("total.no_exception", out.ok)
+    if not out.ok:
+        return
+    r = out.result
+    vc.ensure("result.is_bytes", isa(r, bytes))
+    vc.ensure("body.from_format_error_once", And(len(calls) == 1, calls[0][0] == status, calls[0][1] == msg) if calls else False)
+    # status line: HTTP-version SP 3DIGIT SP reason CRLF   (RFC 9112 §4)
+    sl = b"HTTP/1.1 " + dec(vc, status) + b" "
+    vc.ensure("statusline.prefix", startswith(r, sl))
+    # header section + body: exactly these fields, then the empty line, then the body (RFC 9112 §2.1, §6.2):
+    # Content-Length = len(body) and no Transfer-Encoding => an RFC 9112 reader reads exactly `body` and nothing is left
+    from mitmproxy import version
+    fields = (b"Server: " + version.MITMPROXY.encode() + CRLF + b"Connection: close" + CRLF + b"Content-Type: text/html" + CRLF
+              + b"content-length: " + dec(vc, len_(body)) + CRLF)
+    tail = CRLF + fields + CRLF + body
+    vc.ensure("framing.exact_fields_then_body", endswith(r, tail))
+    vc.ensure("statusline.disjoint_from_fields", len_(r) >= len_(sl) + len_(tail))
+    # r = sl ++ reason ++ tail for a unique `reason` (exists by the three obligations above)
+    if vc.mode == "native":
+        reason = r[len(sl):len(r) - len(tail)]
+    else:
+        reason = vc.fresh_bytes("reason")
+        vc.assume(r == sl + reason + tail)
+    vc.ensure("statusline.reason_clean", And(Not(contains(reason, b"\r")), Not(contains(reason, b"\n")), Not(contains(reason, b"<")), Not(contains(reason, b">"))))
+
+
+# ---------------------------------------------------------------------------------------------------------------
+# who emits the page: Http1Server.send / Http2Connection / Http3Connection on ResponseProtocolError
+
+PAGE_STATUS = {"client": 400, "too_large": 413, "upstream": 502}
+
+
+def spec_status(vc, code):
+    """statement: protocol errors / validation failures of the *request* -> 400, oversized request body -> 413,
+    unreachable or misbehaving upstream and oversized responses -> 502; everything else (kill, cancel, disconnects,
+    passthrough close, HTTP/1.1 required) has no error page."""
+    from mitmproxy.proxy.layers.http._events import ErrorCode as E
+    c400 = [E.GENERIC_CLIENT_ERROR, E.REQUEST_VALIDATION_FAILED, E.DESTINATION_UNKNOWN]
+    c413 = [E.REQUEST_TOO_LARGE]
+    c502 = [E.CONNECT_FAILED, E.GENERIC_SERVER_ERROR, E.RESPONSE_VALIDATION_FAILED, E.RESPONSE_TOO_LARGE]
+    is_ = lambda lst: Or(*[code == x for x in lst])
+    return is_(c400), is_(c413), is_(c502)
+
+
+def mk_h1_server(vc, cstate, response):
+    from props.httpstream import mk_request
+    client = mk_client(vc, state=cstate)
+    ctx = mk_context(vc, client, mk_server(vc), mk_options(vc, validate_inbound_headers=True))
+    srv = vc.new(H1S, context=ctx, conn=client, stream_id=1, request=mk_request(vc), response=response, request_done=True,
+                 response_done=False, debug=None, _paused=None, _paused_event_queue=None)
+    return srv, client
+
+
+@scenario("http1.send_protocol_error", functions=[H1S + ".send", EV + "ErrorCode.http_status_code"])
+def s_h1_send_error(vc):
+    from mitmproxy.proxy.layers.http._events import ErrorCode
+    from props.httpstream import mk_response
+    cstate = conn_state(vc, "cstate")
+    has_response = vc.case("response_started", [False, True])
+    srv, client = mk_h1_server(vc, cstate, mk_response(vc) if has_response else None)
+    code = vc.sym_enum("code", ErrorCode)
+    msg = vc.sym_str("message")
+    page = vc.sym_bytes("page")
+    made = []
+
+    def mer(v, status, message=""):
+        made.append((status, message))
+        return page
+
+    vc.summary(M, mer)
+    ev = vc.new(EV + "ResponseProtocolError", stream_id=1, message=msg, code=code)
+    out = vc.call(H1S + ".send", srv, ev)
+    vc.ensure("total.no_exception", out.ok)
+    if not out.ok:
+        return
+    tr = out.trace
+    kinds = trace_kinds(tr)
+    can_write = SBool((cstate.t / 2) % 2 == 1) if vc.mode == "sym" else bool(cstate & type(cstate).CAN_WRITE)
+    if vc.branch(Not(can_write)):
+        vc.ensure("closed.nothing_sent", kinds == [] and made == [])
+        return
+    c400, c413, c502 = spec_status(vc, code)
+    want_page = (not has_response) and vc.branch(Or(c400, c413, c502))
+    if want_page:
+        vc.ensure("page.trace", kinds == ["SendData", "CloseConnection"])
+        vc.ensure("page.built_once", len(made) == 1)
+        if kinds == ["SendData", "CloseConnection"] and len(made) == 1:
+            vc.ensure("page.is_make_error_response_result", And(tr[0].data == page, tr[0].connection is client))
+            vc.ensure("page.status", made[0][0] == If(c400, 400, If(c413, 413, 502)))
+            vc.ensure("page.message_verbatim", made[0][1] == msg)
+            vc.ensure("page.then_close", tr[1].connection is client)
+    else:
+        vc.ensure("nopage.trace", kinds == ["CloseConnection"] and made == [])
+        if kinds == ["CloseConnection"]:
+            vc.ensure("nopage.closes_client", tr[0].connection is client)
+
+
+class StubSM:
+    def __init__(self, state, headers_sent=False):
+        self.state = state
+        self.headers_sent = headers_sent
+
+
+class StubStream:
+    def __init__(self, state, headers_sent):
+        self.state_machine = StubSM(state, headers_sent)
+
+
+class H2Stub:
+    """stands in for hyper-h2's connection object: records what the layer asks it to send"""
+
+    def __init__(self, conn_state, stream_state, headers_sent, known):
+        self.state_machine = StubSM(conn_state)
+        self.streams = {1: StubStream(stream_state, headers_sent)} if known else {}
+        self.calls = []
+
+    def send_headers(self, stream_id, headers, end_stream=False):
+        self.calls.append(("headers", stream_id, headers, end_stream))
+
+    def send_data(self, stream_id, data, end_stream=False):
+        self.calls.append(("data", stream_id, data, end_stream))
+
+    def reset_stream(self, stream_id, error_code=0):
+        self.calls.append(("reset", stream_id, error_code))
+
+    def data_to_send(self):
+        return b"wire" if self.calls else b""
+
+
+def _items(x):
+    return list(x.items) if isinstance(x, (STuple, SList)) else list(x)
+
+
+@scenario("http2.send_protocol_error", functions=[H2C + "._handle_event", H2C + ".is_closed", H2C + ".is_open_for_us"])
+def s_h2_send_error(vc):
+    import h2.connection
+    import h2.stream
+    from mitmproxy.proxy.layers.http._events import ErrorCode
+    from mitmproxy import version
+    is_response_error = vc.case("event", [True, False])
+    known = vc.case("stream_known", [True, False])
+    sstate = vc.sym_enum("stream_state", h2.stream.StreamState)
+    cclosed = vc.sym_bool("conn_closed")
+    headers_sent = vc.sym_bool("headers_sent")
+    cst = vc.lift(h2.connection.ConnectionState.CLOSED) if False else None
+    client = mk_client(vc)
+    ctx = mk_context(vc, client, mk_server(vc), mk_options(vc, validate_inbound_headers=True))
+    if vc.branch(cclosed):
+        cs = h2.connection.ConnectionState.CLOSED
+    else:
+        cs = h2.connection.ConnectionState.SERVER_OPEN
+    stub = vc.construct("props.C12:H2Stub", cs, sstate, headers_sent, known)
+    layer = vc.new(H2C, context=ctx, conn=client, h2_conn=stub, streams=vc.dict([]), debug=None, _paused=None, _paused_event_queue=None)
+    code = vc.sym_enum("code", ErrorCode)
+    msg = vc.sym_str("message")
+    body = vc.sym_bytes("body")
+    calls = []
+    _body_summary(vc, body, calls)
+    ev = vc.new(EV + ("ResponseProtocolError" if is_response_error else "RequestProtocolError"), stream_id=1, message=msg, code=code)
+    out = vc.call(H2C + "._handle_event", layer, ev)
+    vc.ensure("total.no_exception", out.ok)
+    if not out.ok:
+        return
+    sent = _items(stub.calls)
+    kinds = [_items(c)[0] if not isinstance(_items(c)[0], SStr) else _items(c)[0].concrete() for c in sent]
+    c400, c413, c502 = spec_status(vc, code)
+    S = h2.stream.StreamState
+    writable = And(Not(cclosed), sstate != S.CLOSED, sstate != S.HALF_CLOSED_LOCAL) if known else False
+    want_page = is_response_error and known and vc.branch(And(writable, Not(headers_sent), Or(c400, c413, c502)))
+    if want_page:
+        vc.ensure("page.calls", kinds == ["headers", "data"])
+        vc.ensure("page.body_from_format_error_once", len(calls) == 1)
+        if kinds == ["headers", "data"] and len(calls) == 1:
+            h, d = _items(sent[0]), _items(sent[1])
+            status = If(c400, 400, If(c413, 413, 502))
+            hdrs = [tuple(_items(x)) for x in _items(h[2])]
+            vc.ensure("page.headers.count", len(hdrs) == 3)
+            if len(hdrs) == 3:
+                vc.ensure("page.headers.status", And(hdrs[0][0] == b":status", hdrs[0][1] == dec(vc, status)))
+                vc.ensure("page.headers.html_content_type", And(hdrs[2][0] == b"content-type", hdrs[2][1] == b"text/html"))
+                vc.ensure("page.headers.server", And(hdrs[1][0] == b"server", hdrs[1][1] == version.MITMPROXY.encode()))
+            vc.ensure("page.headers.stream_open", And(h[1] == 1, vc.eq(h[3], False)))
+            vc.ensure("page.body_is_format_error", And(d[1] == 1, d[2] == body, vc.eq(d[3], True)))
+            vc.ensure("page.format_error_args", And(calls[0][0] == status, calls[0][1] == msg))
+        tk = trace_kinds(out.trace)
+        vc.ensure("page.flushed", tk == ["SendData"])
+    else:
+        vc.ensure("nopage.no_headers_no_data", "headers" not in kinds and "data" not in kinds and calls == [])
+
+
+# ---------------------------------------------------------------------------------------------------------------
+# call-site obligation: in mitmproxy/proxy/ the only producers of an HTML body are the functions under contract above
+
+def _html_producers():
+    """(file, enclosing function) of every str/bytes literal in mitmproxy/proxy/**.py that mentions text/html or <html,
+    and of every call of format_error / make_error_response, from the ASTs of the tree under verification"""
+    import ast
+    import os
+    root = os.path.join(os.environ.get("PYVC_REPO", "/repo"), "mitmproxy", "proxy")
+    lits, calls = set(), {}
+    for d, _, fs in os.walk(root):
+        for f in fs:
+            if not f.endswith(".py"):
+                continue
+            p = os.path.join(d, f)
+            rel = os.path.relpath(p, root)
+            tree = ast.parse(open(p, encoding="utf8").read())
+            stack = []
+
+            def visit(n):
+                named = isinstance(n, (ast.FunctionDef, ast.AsyncFunctionDef, ast.ClassDef))
+                if named:
+                    stack.append(n.name)
+                if isinstance(n, ast.Constant) and isinstance(n.value, (str, bytes)):
+                    v = n.value.decode("latin-1") if isinstance(n.value, bytes) else n.value
+                    if ("text/html" in v.lower() or "<html" in v.lower()) and not _is_docstring(n, tree):
+                        lits.add((rel, ".".join(stack)))
+                if isinstance(n, ast.Call):
+                    fn = n.func.attr if isinstance(n.func, ast.Attribute) else getattr(n.func, "id", None)
+                    if fn in ("format_error", "make_error_response"):
+                        calls.setdefault((rel, ".".join(stack)), []).append((fn, n))
+                for c in ast.iter_child_nodes(n):
+                    visit(c)
+                if named:
+                    stack.pop()
+
+            visit(tree)
+    return lits, calls
+
+
+def _is_docstring(n, tree):
+    import ast
+    for node in ast.walk(tree):
+        if isinstance(node, (ast.FunctionDef, ast.ClassDef, ast.AsyncFunctionDef, ast.Module)) and node.body:
+            b = node.body[0]
+            if isinstance(b, ast.Expr) and b.value is n:
+                return True
+    return False
+
+
+@scenario("callsites", functions=[])
+def s_callsites(vc):
+    import ast
+    lits, calls = _html_producers()
+    h = "layers/http/"
+    allowed = {(h + "_base.py", "format_error"), (h + "_http1.py", "make_error_response"),
+               (h + "_http2.py", "Http2Connection._handle_event"), (h + "_http3.py", "Http3Connection._handle_event")}
+    vc.ensure("html_literals.only_in_contracted_functions", lits <= allowed)
+    vc.ensure("html_literals.all_present", lits == allowed)
+    # format_error is called only from the three page builders; make_error_response only from Http1Server
+    fe = {k for k, v in calls.items() if any(fn == "format_error" for fn, _ in v)}
+    vc.ensure("format_error.callers", fe == allowed - {(h + "_base.py", "format_error")})
+    mer = {k for k, v in calls.items() if any(fn == "make_error_response" for fn, _ in v)}
+    vc.ensure("make_error_response.callers", mer == {(h + "_http1.py", "Http1Server.send"), (h + "_http1.py", "Http1Server.read_headers")})
+    # every body handed out next to a text/html declaration is the direct result of format_error(status, <message>):
+    # in make_error_response it is Response.make's content argument, in h2/h3 send_data's data argument
+    ok = True
+    for key in fe:
+        for fn, node in calls[key]:
+            if fn != "format_error":
+                continue
+            ok = ok and len(node.args) == 2 and not node.keywords
+    vc.ensure("format_error.two_positional_args", ok)
+
+
+class H3Stub:
+    """stands in for LayeredH3Connection (aioquic): records what the layer asks it to send"""
+
+    def __init__(self, sent_headers):
+        self.sent_headers = sent_headers
+        self.calls = []
+
+    def has_sent_headers(self, stream_id):
+        return self.sent_headers
+
+    def send_headers(self, stream_id, headers, end_stream=False):
+        self.calls.append(("headers", stream_id, headers, end_stream))
+
+    def send_data(self, stream_id, data, end_stream=False):
+        self.calls.append(("data", stream_id, data, end_stream))
+
+    def close_stream(self, stream_id, error_code):
+        self.calls.append(("close", stream_id, error_code))
+
+    def transmit(self):
+        yield ("transmit", len(self.calls))
+
+
+H3C = "mitmproxy.proxy.layers.http._http3:Http3Connection"
+
+
+@scenario("http3.send_protocol_error", functions=[H3C + "._handle_event"])
+def s_h3_send_error(vc):
+    from mitmproxy.proxy.layers.http._events import ErrorCode
+    from mitmproxy import version
+    is_response_error = vc.case("event", [True, False])
+    headers_sent = vc.sym_bool("headers_sent")
+    client = mk_client(vc)
+    ctx = mk_context(vc, client, mk_server(vc), mk_options(vc, validate_inbound_headers=True))
+    stub = vc.construct("props.C12:H3Stub", headers_sent)
+    layer = vc.new(H3C, context=ctx, conn=client, h3_conn=stub, debug=None, _paused=None, _paused_event_queue=None)
+    code = vc.sym_enum("code", ErrorCode)
+    msg = vc.sym_str("message")
+    body = vc.sym_bytes("body")
+    calls = []
+    _body_summary(vc, body, calls)
+    ev = vc.new(EV + ("ResponseProtocolError" if is_response_error else "RequestProtocolError"), stream_id=1, message=msg, code=code)
+    out = vc.call(H3C + "._handle_event", layer, ev)
+    vc.ensure("total.no_exception", out.ok)
+    if not out.ok:
+        return
+    sent = _items(stub.calls)
+    kinds = [_items(c)[0] if not isinstance(_items(c)[0], SStr) else _items(c)[0].concrete() for c in sent]
+    c400, c413, c502 = spec_status(vc, code)
+    want_page = is_response_error and vc.branch(And(Not(headers_sent), Or(c400, c413, c502)))
+    if want_page:
+        vc.ensure("page.calls", kinds == ["headers", "data"])
+        vc.ensure("page.body_from_format_error_once", len(calls) == 1)
+        if kinds == ["headers", "data"] and len(calls) == 1:
+            h, d = _items(sent[0]), _items(sent[1])
+            status = If(c400, 400, If(c413, 413, 502))
+            hdrs = [tuple(_items(x)) for x in _items(h[2])]
+            vc.ensure("page.headers.count", len(hdrs) == 3)
+            if len(hdrs) == 3:
+                vc.ensure("page.headers.status", And(hdrs[0][0] == b":status", hdrs[0][1] == dec(vc, status)))
+                vc.ensure("page.headers.html_content_type", And(hdrs[2][0] == b"content-type", hdrs[2][1] == b"text/html"))
+            vc.ensure("page.body_is_format_error", And(d[1] == 1, d[2] == body, vc.eq(d[3], True)))
+            vc.ensure("page.format_error_args", And(calls[0][0] == status, calls[0][1] == msg))
+        vc.ensure("page.transmitted", len(out.trace) == 1)
+    else:
+        vc.ensure("nopage.no_headers_no_data", "headers" not in kinds and "data" not in kinds and calls == [])
